@@ -904,6 +904,11 @@ def run(chk: Check) -> None:
         d = {}
         for _ in range(rng.randint(1, 4)):
             d[rng.choice(["realm", "nonce", "qop", "opaque", "domain", "algorithm", "stale"]) if rng.random() < 0.6 else gen_key(rng)] = gen_value(rng)
+        if sch == "digest":
+            C.add(f"digesthdr {fod(d)}", lambda: cps(ds.WWWAuthenticate(sch, dict(d)).to_header()))
+        else:
+            C.add(f"paramhdr {cps(sch)} {fod(d)}", lambda: "ok " + cps(ds.WWWAuthenticate(sch, dict(d)).to_header()))
+            C.add(f"paramhdr {cps(sch)} {fod(d)}", lambda: "ok " + cps(ds.Authorization(sch, dict(d)).to_header()))
         for cls in (ds.Authorization, ds.WWWAuthenticate):
             try:
                 b = T(lambda: cls.from_header(cls(sch, dict(d)).to_header()))
